@@ -451,7 +451,7 @@ class Engine:
                 raise Unsupported("truthiness of map without size")
             return v.size > 0
         if isinstance(v, (Ref, Fun, Special)):
-            if isinstance(v, Ref) and v.ty.kind in ("map", "bimap", "list", "set"):
+            if isinstance(v, Ref) and v.ty.kind in ("map", "bimap", "list", "setcell"):
                 return self.truth(self.heap()[v.rid])
             return z3.BoolVal(True)
         if isinstance(v, TupV):
